@@ -119,6 +119,16 @@ def run(ctx):
                     f.write(sm)
                 args += ["--style-map", smp]
                 dist["with_style_map"] += 1
+            if i % 2 == 0:
+                # the destination already exists and is LONGER than what will be written: the command writes the value, not the value plus a tail
+                stale = ("old output " * 30000).encode("ascii")
+                if mode == "path":
+                    with open(outpath, "wb") as f:
+                        f.write(stale)
+                elif mode == "output_dir" and os.path.isdir(outdir):
+                    with open(os.path.join(outdir, name.rpartition(".")[0] + ".html"), "wb") as f:
+                        f.write(stale)
+                dist["existing_destination"] = dist.get("existing_destination", 0) + 1
             p = subprocess.run(args, env=env, cwd=d, stdout=subprocess.PIPE, stderr=subprocess.PIPE, timeout=120)
             ctx.count()
             dist["runs"] += 1
